@@ -80,6 +80,19 @@ func installNatives(it *Interp) {
 		it.callValue(nil, args[0], []Value{yield})
 		return []Value{out}
 	}
+	n["slices.Backward"] = func(it *Interp, args []Value) []Value {
+		s, _ := args[0].(*SliceV)
+		return []Value{&Native{"backward", func(it *Interp, a []Value) []Value {
+			for i := lenOf(s) - 1; i >= 0; i-- {
+				res := it.callValue(nil, a[0], []Value{int64(i), s.elems[i]})
+				if b, ok := res[0].(bool); ok && !b {
+					break
+				}
+			}
+			return nil
+		}}}
+	}
+	installSetNatives(it)
 	n["text/template.New"] = func(it *Interp, args []Value) []Value { return []Value{&Ext{"template"}} }
 	n["(*text/template.Template).Funcs"] = func(it *Interp, args []Value) []Value { return []Value{&Ext{"template"}} }
 	n["(*text/template.Template).Parse"] = func(it *Interp, args []Value) []Value { return []Value{&Ext{"template"}, Nil{}} }
@@ -104,6 +117,8 @@ type opaqueInfo struct {
 	labelLast bool
 	always    bool // what CheckAlwaysSucceeds reports for it
 	uses      int
+	first     *NSet // declared FIRST set (nil: unknown); only used by the -switch analysis
+	consumes  bool  // must consume when it succeeds
 }
 
 type modelOpts struct {
@@ -219,6 +234,26 @@ func (m *model) name(s string) *Obj     { return m.node("TypeName", s) }
 func (m *model) commentNode() *Obj      { return m.node("TypeComment", "c") }
 func (m *model) commit() *Obj           { return m.node("TypeCommit", "") }
 
+// oinfo finds the contract of an opaque node; copies made by the generator
+// (node.Copy) keep the marker type, so lookup is by type value.
+func (m *model) oinfo(n *Obj) *opaqueInfo {
+	if n == nil {
+		return nil
+	}
+	if oi, ok := m.opaque[n]; ok {
+		return oi
+	}
+	t, _ := n.field("Type").v.(int64)
+	if t >= 100 {
+		for _, oi := range m.opaque {
+			if int64(oi.idx) == t-100 {
+				return oi
+			}
+		}
+	}
+	return nil
+}
+
 // opaqueChild is a hole: an arbitrary sub-expression known only by contract.
 func (m *model) opaqueChild(mayFail, labelLast bool) *Obj {
 	n := m.it.newObj(m.nodeT)
@@ -302,7 +337,7 @@ func (m *model) finish() {
 		if n == nil {
 			return
 		}
-		if _, isOpaque := m.opaque[n]; isOpaque {
+		if m.oinfo(n) != nil {
 			return
 		}
 		if n.field("Type").v == m.it.typeConst("TypePush") && n.field("length").v.(int64) == 1 {
@@ -588,7 +623,7 @@ func (m *model) run(rg *region) (em *emission) {
 	it.hooks = map[ast.Node]func(*Interp, *Closure, []Value) ([]Value, bool){}
 	it.hooks[rg.compileLit] = func(it *Interp, cl *Closure, args []Value) ([]Value, bool) {
 		n, _ := args[0].(*Obj)
-		oi := m.opaque[n]
+		oi := m.oinfo(n)
 		if oi == nil {
 			return nil, false
 		}
@@ -619,7 +654,7 @@ func (m *model) run(rg *region) (em *emission) {
 	}
 	it.hooks[rg.printRule] = func(it *Interp, cl *Closure, args []Value) ([]Value, bool) {
 		n, _ := args[0].(*Obj)
-		if oi := m.opaque[n]; oi != nil {
+		if oi := m.oinfo(n); oi != nil {
 			it.callValue(nil, env.lookup(rg.printVar).v, []Value{"%s", fmt.Sprintf("e%d", oi.idx)})
 			return nil, true
 		}
@@ -629,7 +664,7 @@ func (m *model) run(rg *region) (em *emission) {
 	if fd, _ := findDecl(it, "node", "checkAlwaysSucceedsRecursion"); fd != nil {
 		it.hooks[fd] = func(it *Interp, cl *Closure, args []Value) ([]Value, bool) {
 			if n, ok := cl.recv.(*Obj); ok {
-				if oi := m.opaque[n]; oi != nil {
+				if oi := m.oinfo(n); oi != nil {
 					return []Value{oi.always}, true
 				}
 			}
@@ -789,4 +824,38 @@ func (m *model) tmplConfigFromTree(t *Obj, boolVars []string) (tmplConfig, error
 		}
 	}
 	return cfg, nil
+}
+
+// labelParity: a label marked used in the dry pass but never jumped to in the
+// real pass is printed without a goto ("declared and not used"); the converse
+// leaves a goto without its label. Returns "" when the sets agree.
+func (em *emission) labelParity() string {
+	d, r := map[int64]bool{}, map[int64]bool{}
+	for _, l := range em.JumpsDry {
+		d[l] = true
+	}
+	for _, l := range em.JumpsReal {
+		r[l] = true
+	}
+	var onlyD, onlyR []string
+	for l := range d {
+		if !r[l] {
+			onlyD = append(onlyD, fmt.Sprintf("l%d", l))
+		}
+	}
+	for l := range r {
+		if !d[l] {
+			onlyR = append(onlyR, fmt.Sprintf("l%d", l))
+		}
+	}
+	sort.Strings(onlyD)
+	sort.Strings(onlyR)
+	var out []string
+	if len(onlyD) > 0 {
+		out = append(out, "marked used by the dry pass but never jumped to in the real pass (label printed without a goto): "+strings.Join(onlyD, ","))
+	}
+	if len(onlyR) > 0 {
+		out = append(out, "jumped to in the real pass but not marked by the dry pass (goto without its label): "+strings.Join(onlyR, ","))
+	}
+	return strings.Join(out, "; ")
 }
